@@ -12,6 +12,7 @@ import (
 	"github.com/jawher/mow.cli/internal/fsm"
 	"github.com/jawher/mow.cli/internal/lexer"
 	"github.com/jawher/mow.cli/internal/parser"
+	"github.com/jawher/mow.cli/internal/verifhook"
 )
 
 /*
@@ -440,10 +441,12 @@ func (c *Cmd) Var(p VarParam) {
 }
 
 func (c *Cmd) doInit() error {
+	verifhook.Point("cmd.doInit")
 	if c.init != nil {
 		c.init(c)
 	}
 
+	verifhook.Point("cmd.declared")
 	parents := append(c.parents, c.name)
 
 	for _, sub := range c.commands {
@@ -480,6 +483,7 @@ func (c *Cmd) doInit() error {
 }
 
 func (c *Cmd) onError(err error) {
+	verifhook.Point("cmd.onError")
 	if err == errHelpRequested || err == errVersionRequested {
 		if c.ErrorHandling == flag.ExitOnError {
 			exiter(0)
@@ -515,6 +519,7 @@ func (c *Cmd) PrintLongHelp() {
 }
 
 func (c *Cmd) printHelp(longDesc bool) {
+	verifhook.Point("cmd.printHelp")
 	full := append(c.parents, c.name)
 	path := strings.Join(full, " ")
 	fmt.Fprintf(stdErr, "\nUsage: %s", path)
@@ -589,6 +594,7 @@ func (c *Cmd) printHelp(longDesc bool) {
 		fmt.Fprintf(w, "\t\nRun '%s COMMAND --help' for more information on a command.\n", path)
 	}
 
+	verifhook.Point("cmd.flush")
 	w.Flush()
 }
 
@@ -648,6 +654,7 @@ func formatEnvVarsForHelp(envVars string) string {
 }
 
 func (c *Cmd) parse(args []string, entry, inFlow, outFlow *flow.Step) error {
+	verifhook.Point("cmd.parse")
 	helpIndex := c.helpIndex(args)
 	nargsLen := c.getOptsAndArgs(args)
 
